@@ -153,7 +153,12 @@ struct Explorer {
 		auto o = mc::guarded([&] { a0 = openArchive(f); });
 		ctx.transition();
 		if (o.cls == 'X') { ctx.violation("C05/open/non-std-exception", f.desc, ""); return; }
-		if (o.cls != 'R') { ctx.count("open/refused"); ctx.outcome(mc::fnv(o.what)); return; }
+		if (o.cls != 'R') {
+			// the message names the archive, which lies in this worker's scratch directory: leave the directory out of the outcome
+			std::string what = o.what, dir = ctx.scratch();
+			for (std::size_t at; !dir.empty() && (at = what.find(dir)) != std::string::npos;) what.erase(at, dir.size());
+			ctx.count("open/refused"); ctx.outcome(mc::fnv(what)); return;
+		}
 		ctx.count("open/accepted");
 		ctx.state();
 		std::size_t count = a0->GetCount();
